@@ -20,10 +20,13 @@ Fld(r, f) == IF f \in DOMAIN r THEN r[f] ELSE <<>>
 Expect(r) == LET e == Eval(r.tree, Env0(Fld(r, "bind"), Fld(r, "progs"), Fld(r, "funcs")))
              IN IF \E i \in 1..Len(e.log) : e.log[i] = "#depth" THEN [o |-> Weaken(e.o), log |-> <<>>, lk |-> FALSE] ELSE e
 
+(* C01 runs the same recordings with ONLYCRASH=1: there only totality is demanded (a value or an error) *)
+OnlyCrash == "ONLYCRASH" \in DOMAIN IOEnv /\ IOEnv.ONLYCRASH = "1"
+
 (* laws that hold even where the outcome is not unique: a sort result is an ordered permutation (C04) *)
 SortLaw(r, ob) ==
     LET t == r.tree IN
-    (t.k = "mcall" /\ t.f = "sort" /\ t.r.k = "id" /\ t.r.n \in DOMAIN Fld(r, "bind"))
+    (~OnlyCrash /\ t.k = "mcall" /\ t.f = "sort" /\ Len(t.args) = 0 /\ t.r.k = "id" /\ t.r.n \in DOMAIN Fld(r, "bind"))
       => LET v == r.bind[t.r.n] IN
          (v.t = "list" /\ Comparable(v.s))
            => (ob.out.o = "ok" /\ ob.out.v.t = "list" /\ IsSorted(ob.out.v.s) /\ IsPerm(v.s, ob.out.v.s))
@@ -31,7 +34,8 @@ SortLaw(r, ob) ==
 (* cases marked "same": every form must give one and the same outcome (C07: one fixed map order) *)
 SameLaw(r) == ("extra" \in DOMAIN r /\ "same" \in DOMAIN r.extra) => \A i, j \in 1..Len(r.obs) : r.obs[i].out = r.obs[j].out
 
-ObsOk(ob, e) == /\ Matches(ob.out, e.o)
+ObsOk(ob, e) == IF OnlyCrash THEN ob.out.o \in {"ok", "err"} ELSE
+                /\ Matches(ob.out, e.o)
                 /\ (e.lk /\ "log" \in DOMAIN ob => ob.log = e.log)
                 /\ ("bind_ok" \in DOMAIN ob => ob.bind_ok)
 
